@@ -4,6 +4,7 @@ import (
 	"bytes"
 	"fmt"
 	"testing"
+	"time"
 
 	"github.com/pascaldekloe/mqtt"
 	"pgregory.net/rapid"
@@ -422,8 +423,47 @@ func TestC18ConnectSetup(t *testing.T) {
 			}
 		}
 
+		// gatedResend parks connect between taking the write lock and the
+		// resend, lets requests queue up for longer than lockWrite's 20 ms
+		// poll, and releases: nothing may overtake the resend.
+		gatedResend := func(rt *rapid.T) {
+			if h.App.InCall() {
+				rt.Skip("ReadSlices is running")
+			}
+			if c := h.Current(); c != nil && c.State.Accepted {
+				rt.Skip("online")
+			}
+			h.Act("attempt ok with connect parked before resend")
+			h.ArmGate("connect.resend")
+			h.App.Step()
+			h.SettleReader("connect parked before resend")
+			if h.GateParked("connect.resend") == 0 {
+				h.DisarmGate("connect.resend")
+				return // the attempt did not get that far (scripted failure pending)
+			}
+			var calls []*sim.Call
+			for i := 0; i < rapid.IntRange(1, 3).Draw(rt, "nreq"); i++ {
+				switch rapid.IntRange(0, 2).Draw(rt, "req") {
+				case 0:
+					calls = append(calls, h.pub(0, false))
+				case 1:
+					calls = append(calls, h.sub(1, 1))
+				case 2:
+					calls = append(calls, h.ping())
+				}
+			}
+			time.Sleep(25 * time.Millisecond)
+			h.ReleaseGate("connect.resend")
+			h.SettleReader("connect after the gate")
+			for _, c := range calls {
+				h.SettleCall(c)
+			}
+			duringAttempt++
+		}
+
 		var fc faultCounters
 		actions := map[string]func(*rapid.T){
+			"gatedResend": gatedResend,
 			"attempt":  attempt,
 			"attempt2": attempt,
 			"pub0":     func(rt *rapid.T) { h.pub(0, false) },
